@@ -205,8 +205,9 @@ class Decimal(SimpleModel):
                     value <  cls.Attributes.lt and
                     value <= cls.Attributes.le
                 ))
-        except decimal.InvalidOperation:
-            # NaN is not ordered: it satisfies no range
+        except (decimal.InvalidOperation, TypeError):
+            # NaN is not ordered: it satisfies no range. neither does a value
+            # that is no number at all (a date from a YAML document)
             return False
 
 
